@@ -3,6 +3,7 @@ package harness
 import (
 	"errors"
 	"fmt"
+	"io"
 	"os"
 	"sort"
 	"strings"
@@ -16,6 +17,7 @@ import (
 	"github.com/f1bonacc1/process-compose/src/pclog"
 	"github.com/f1bonacc1/process-compose/src/types"
 	"github.com/rs/zerolog"
+	zlog "github.com/rs/zerolog/log"
 
 	"verifrt/simlog"
 	"verifrt/simos"
@@ -51,6 +53,7 @@ type RunResult struct {
 	BubbleErr string
 	Files     map[string]string // log files read back after the run
 	FinalLogs map[string][]string
+	Notes     []string
 }
 
 func lite(s *types.ProcessState) StateLite {
@@ -165,9 +168,13 @@ func loadProject(sc *Scenario, spec *ProjectSpec, tmp, fname string) (*types.Pro
 // RunScenario executes one simulated run. It must be called with a *testing.T because
 // the fake clock comes from testing/synctest.
 func RunScenario(t *testing.T, sc *Scenario, tape []int32) *RunResult {
-	zerolog.SetGlobalLevel(zerolog.Disabled)
+	// silence the supervisor's own diagnostics without touching the global level: the
+	// process log files are written through zerolog too
+	zerolog.SetGlobalLevel(zerolog.InfoLevel)
+	zlog.Logger = zerolog.New(io.Discard)
 	if os.Getenv("VERIF_ZLOG") != "" {
 		zerolog.SetGlobalLevel(zerolog.DebugLevel)
+		zlog.Logger = zerolog.New(os.Stdout)
 	}
 	res := &RunResult{}
 	t0 := time.Now()
@@ -221,7 +228,7 @@ func RunScenario(t *testing.T, sc *Scenario, tape []int32) *RunResult {
 	rc.started = &started
 	cfg := simsync.Config{
 		Seed: sc.Seed, Tape: tape, Strategy: sc.Strategy, IterMode: sc.IterMode, IterRot: sc.IterRot,
-		MaxSteps: 60000, Horizon: 3 * time.Hour,
+		MaxSteps: 250000, Horizon: 3 * time.Hour,
 	}
 	traceSteps := os.Getenv("VERIF_STEPS") != ""
 	if sc.SweepStep > 0 || traceSteps {
@@ -257,6 +264,11 @@ func RunScenario(t *testing.T, sc *Scenario, tape []int32) *RunResult {
 	}
 	body := func() {
 		simlog.Add(simlog.Event{Kind: "run.begin", A: sc.Prop, N: int(sc.Seed)})
+		if sc.LogBuf != nil {
+			runLogBuf(sc)
+			simlog.Add(simlog.Event{Kind: "run.end"})
+			return
+		}
 		project, err := loadProject(sc, sc.Project, tmp, "pc.yaml")
 		if err != nil {
 			res.LoadErr = err.Error()
